@@ -27,6 +27,9 @@ func init() { Registry["C29"] = c29 }
 type c29Case struct {
 	Src  string `json:"src"`
 	Kind string `json:"kind"`
+	// Light (depth-2 grammar programs): only the recorder runs (first,
+	// second, after Reset) and the control run
+	Light bool `json:"light,omitempty"`
 }
 
 // C29: Running a program leaves the tree and Env untouched.
@@ -50,7 +53,7 @@ func c29(c *vc.Ctx) {
 	space := synSpace{Depth: depth, CoreOnly: true, LayoutDepth: -1, Corpus: true, Variants: []string{"bash"}}
 	own := c29OwnPrograms(!c.Quick())
 	runTimeout := vc.Pick(c, 1500*time.Millisecond, 2*time.Second)
-	c.Rule = fmt.Sprintf("programs (bash variant, parsed once, comments kept) = every string literal of interp/interp_test.go and of the syntax test tables that parses + every expansion of the union grammar (mc/synt/gram.go) to nesting depth %d (core contexts below the top level) + %d own programs (c29_progs.go: %d tree-rewriting-prone and Env-writing statements alone, in %d wrappers (function called twice, loop, subshell, command substitution, eval, EXIT trap, pipeline, ...), and ordered pairs (quick: second statement from the Env list or every other tree statement; thorough: every ordered pair, also inside a function called twice and inside a loop)); not run: programs outside the own list containing a process substitution (unread FIFOs), programs with `exit`/`return` and a C-style for loop (uncancellable spin). Each program: 7 runs of the same tree (fresh Runner with a recording WriteEnviron; second fresh Runner; same Runner after Reset; ListEnviron twice with Reset; FuncEnviron) + 1 control run of a re-parsed tree; oracle: canonical dump with positions and printed form identical after every run, recorder.Set never called, recorder/ListEnviron contents identical (arrays compared over their full capacity), and for deterministic programs (control run equal, no background job outside the own list; for programs outside the own list containing a pipeline the lines of each stream are compared as a sorted list, the stages write concurrently) stdout/stderr/status of the repeated runs equal those of the first. External commands are an in-process stub (cat, env, sleep; everything else 127), a call handler aborts after %d simple commands, context deadline %v; distinct = distinct (program, first-run outcome)",
+	c.Rule = fmt.Sprintf("programs (bash variant, parsed once, comments kept) = every string literal of interp/interp_test.go and of the syntax test tables that parses + every expansion of the union grammar (mc/synt/gram.go) to nesting depth %d (core contexts below the top level) + %d own programs (c29_progs.go: %d tree-rewriting-prone and Env-writing statements alone, in %d wrappers (function called twice, loop, subshell, command substitution, eval, EXIT trap, pipeline, ...), and ordered pairs (quick: second statement from the Env list; thorough: every ordered pair, also inside a function called twice and inside a loop)); not run: programs outside the own list containing a process substitution (unread FIFOs), programs with `exit`/`return` and a C-style for loop (uncancellable spin). Each program: 6 runs of the same tree (fresh Runner with a recording WriteEnviron; second fresh Runner; same Runner after Reset; ListEnviron twice with Reset; FuncEnviron; the depth-2 grammar programs only get the first three) + 1 control run of a re-parsed tree; oracle: canonical dump with positions and printed form identical after every run, recorder.Set never called, recorder/ListEnviron contents identical (arrays compared over their full capacity), and for deterministic programs (control run equal, no background job outside the own list; for programs outside the own list containing a pipeline the lines of each stream are compared as a sorted list, the stages write concurrently) stdout/stderr/status of the repeated runs equal those of the first. External commands are an in-process stub (cat, env, sleep; everything else 127), a call handler aborts after %d simple commands, context deadline %v; distinct = distinct (program, first-run outcome)",
 		depth, len(own), len(c29Stmts()), len(c29Wrappers), c29CallBudget, runTimeout)
 	c.Assumptions = []string{
 		"tree equality is judged on exported fields (mc/synt Dump with positions and comments) and on syntax.Printer output; a mutation that is undone before Run returns is not seen",
@@ -95,7 +98,7 @@ func c29(c *vc.Ctx) {
 	// statements left their trees alone.
 	complete := vc.Run(c, func(emit func(c29Case)) {
 		for _, p := range singles {
-			emit(c29Case{p, "own"})
+			emit(c29Case{Src: p, Kind: "own"})
 		}
 	}, run)
 	if n := c29TreeFailures.Load(); n > 0 {
@@ -107,14 +110,14 @@ func c29(c *vc.Ctx) {
 		seen := map[string]bool{}
 		for _, p := range own {
 			if !isSingle[p] {
-				emit(c29Case{p, "own"})
+				emit(c29Case{Src: p, Kind: "own"})
 			}
 			seen[p] = true
 		}
 		for _, src := range synt.InterpCorpus() {
 			if !seen[src] {
 				seen[src] = true
-				emit(c29Case{src, "corpus"})
+				emit(c29Case{Src: src, Kind: "corpus"})
 			}
 		}
 		genSyn(c, space, func(sc synCase) {
@@ -126,7 +129,7 @@ func c29(c *vc.Ctx) {
 			if sc.Kind == 0 {
 				kind = "syncorpus"
 			}
-			emit(c29Case{sc.Src, kind})
+			emit(c29Case{Src: sc.Src, Kind: kind, Light: sc.Kind == 3})
 		})
 	}
 	complete = vc.Run(c, gen, run) && complete
@@ -245,6 +248,11 @@ func (run *c29Run) exec(f *syntax.File, reset bool, timeout time.Duration) c29Ou
 	if ctx.Err() != nil {
 		o.TimedOut = true
 	}
+	if run.unordered && run.calls.Load() > c29CallBudget {
+		// concurrent stages share the call budget: where each of them is cut
+		// off is not determined, so this counts as a timeout
+		o.TimedOut = true
+	}
 	norm := func(s string) string {
 		s = strings.ReplaceAll(s, run.dir, "<DIR>")
 		return c29TimeRe.ReplaceAllString(s, "$1$2<T>")
@@ -355,7 +363,7 @@ func c29Judge(c *vc.Ctx, t c29Case, dir string, timeout time.Duration, abandoned
 		c.Count("endless_for_short_deadline", 1)
 	}
 	background := c29HasBackground(f, t)
-	unordered := t.Kind != "own" && strings.Contains(t.Src, "|")
+	unordered := (t.Kind != "own" && strings.Contains(t.Src, "|")) || c29HasProcSubst(t.Src)
 	c.Count("programs_run_"+t.Kind, 1)
 	dopts := synt.DumpOpts{Positions: true, Comments: true}
 	printer := syntax.NewPrinter()
@@ -495,6 +503,10 @@ func c29Judge(c *vc.Ctx, t c29Case, dir string, timeout time.Duration, abandoned
 			// behaviour says nothing more
 			detB = false
 		}
+	}
+
+	if t.Light {
+		return pending
 	}
 
 	// ---- run E: plain read-only ListEnviron, twice with Reset
